@@ -10,7 +10,8 @@ CLAIMED = {
         technique='bounded model checking of the compiled Felt operators with Kani/CBMC (SAT), all operands symbolic; exhaustive over the finite domains; counterexamples replayed natively',
         text='Every Felt operator (new, +, -, neg, *, assign forms, inverse_or_zero, balanced_value, From<usize>) is compiled by Kani and decided by CBMC/cadical '
              'against a 64-bit rem_euclid oracle for ALL canonical operands / all i16 inputs - the domains are finite, so the verdict is exhaustive, not sampled. '
-             'Inversion is split into 13 value slices run in parallel.',
+             'Inversion is split into 13 value slices run in parallel. Multiplication is decided a second way on the MIR (engine M: product cut point, cvc5 integer encoding of bit-vectors, z3) - the deciding check when CBMC gives no verdict on a division-free reduction. '
+             'Batch inversion: the generic method on engine S (log domain); a Felt-specific override is detected and exercised natively (INCONCLUSIVE unless it deviates).',
         note='Trusted: Kani 0.68 + CBMC 6.11 model of rustc dev-profile codegen; the oracle (i64 rem_euclid) in /verif/hooks/falcon_field.rs. Operands are assumed canonical (<q), '
              'which is what every constructor establishes and c12_new_all_i16 checks.',
         design='DESIGN.md §4 C12'),
@@ -27,7 +28,7 @@ CLAIMED = {
         engine='M (mirsym over rustc MIR + z3)',
         technique='path-wise symbolic execution of the MIR of hash_to_point with the SHAKE-256 reader stubbed by a fully symbolic byte stream; per-path equality with Algorithm 3 decided by z3; counterexamples replayed natively on a message found by search',
         text='Every accept/reject interleaving of the rejection loop inside the bound (n <= 8 quick / 16 thorough, <= 1..4 rejections) is explored with ALL XOF streams symbolic; on each path the returned '
-             'coefficients, their number and the number of consumed chunks must equal Algorithm 3 on that stream, every coefficient < q, and the XOF must have absorbed exactly the input once.',
+             'coefficients and their number must equal Algorithm 3 on that stream (the first n accepted chunks, reduced; squeezing the XOF ahead of need is not observable and allowed), every coefficient < q, and the XOF must have absorbed exactly the input once.',
         note='SHAKE-256 (sha3 crate) is trusted: its output is modelled as arbitrary bytes (sound over-approximation). n = 512/1024 differ only in loop trip count and are outside the bound.',
         design='DESIGN.md §4 C14'),
     'C02': dict(
@@ -42,7 +43,7 @@ CLAIMED = {
         engine='M (mirsym over rustc MIR + z3)',
         technique='path-wise symbolic execution of the MIR (overflow checks on) of decompress, the three from_bytes parsers and verify::<N>: every assert terminator and every modelled library panic is a z3 obligation over symbolic bytes; violations replayed natively in dev and release',
         text='Panic-freedom obligations on the real MIR: decompress on all buffers within C07\'s bounds; PublicKey/SecretKey/Signature::from_bytes with every byte symbolic at the accepted and at wrong lengths; '
-             'verify at toy N with the real parameters. Each obligation is discharged by the solver for all inputs in the bound or yields a concrete panicking input.',
+             'verify at toy N with the real parameters. Each obligation is discharged by the solver for all inputs in the bound or yields a concrete panicking input. Felt multiplication is panic-free for all operand pairs (engine M with cvc5), and verify\'s accumulators are wide enough for the heaviest signature of every length the parser accepts.',
         note='SecretKey::from_bytes\' floating-point tail (FFT, ffLDL) is outside; panics inside dependencies beyond the modelled ones (index, unwrap, try_into) are outside.',
         design='DESIGN.md §4 C03'),
     'C05': dict(
@@ -56,7 +57,7 @@ CLAIMED = {
         engine='M (mirsym over rustc MIR + z3)',
         technique='symbolic execution of from_bytes then to_bytes (real MIR) with EVERY byte of the production-size buffers symbolic; per accepting path a bit-vector equality to_bytes(from_bytes(b)) = b decided by z3 (cone-of-influence queries); wrong lengths must have no accepting path',
         text='Strictness is decided as: whenever from_bytes accepts b, re-encoding reproduces b bit for bit - over all 2^(8L) buffers of the accepted length for the three types and both variants; lengths 0, 1, 2, L-1, L+1 and the '
-             'other variant\'s length must be rejected on every path; the secret-key field decoder is checked against its contract for all widths and bit patterns.',
+             'other variant\'s length must be rejected on every path; the secret-key field decoder is checked against its contract for all widths and bit patterns, and no accepting secret-key path may hold the reserved minimum value in any field.',
         note='Secret keys: quick tier keeps header + nine 40-byte windows symbolic, thorough every byte. G and the LDL tree are outside (recomputed by floating-point code). Trusted: mirsym summaries, z3.',
         design='DESIGN.md §4 C06'),
     'C09': dict(
@@ -69,7 +70,7 @@ CLAIMED = {
         engine='K (Kani/CBMC) + S (SymField + z3) + M (mirsym)',
         technique='Kani: twiddle tables and n^-1 constants with symbolic index (exhaustive); engine S: the crate\'s generic fft/ifft/split/merge run on symbolic terms, QF_LIA decided by z3 for all vectors in Z_q^n; mirsym: FastFft glue per n',
         text='Tables: every entry is psi^bitrev(i) for a primitive 2048-th root, inverse table entries are inverses, n*NINV_n = 1. Transforms: ifft(fft(a)) = a, fft(ifft(a)) = a, merge(split(F)) = F, split(fft(a)) = (fft(a_even), fft(a_odd)) '
-             'and ifft(fft(a) .* fft(X^j)) = X^j*a for ALL a in Z_q^n (n <= 64 / 16 quick, 256 / 64 thorough). Glue: each n in {1..1024} hands the right table and constant to the generic code.',
+             'and ifft(fft(a) .* fft(X^j)) = X^j*a for ALL a in Z_q^n (n <= 64 / 16 quick, 256 / 64 thorough). Glue: each n in {1..1024} hands the right table and constant to the generic code. Product clause: hadamard_mul returns one canonical element per slot for all operand vectors (real MIR) and Felt multiplication is exact (engine M, cvc5).',
         note='Fully symbolic transforms at n = 512/1024 exceed z3\'s memory: those sizes are covered structurally (size-independent butterflies + every table entry + every size-specific constant/arm). Product for arbitrary b follows from monomials by linearity (C12) - an argument on paper.',
         design='DESIGN.md §4 C11'),
     'C13': dict(
